@@ -13,7 +13,7 @@ def build(rec):
     def eid(p):
         if p not in ids:
             f = fm.get(p, {"k": "absent"})
-            k = "bad" if (p in rec.get("vanish", []) or f["k"] in ("absent", "dangling")) else f["k"]
+            k = "bad" if (p in rec.get("vanish", []) or f["k"] in ("absent", "dangling", "eio")) else f["k"]
             if k in ("fifo", "dev", "ldir"):       # neither regular nor directory: skipped by a worker like a directory
                 k = "dir"
             ids[p] = nxt[k]
